@@ -279,6 +279,44 @@ func runC15(seed int64, tier string, sc *Script) map[string]any {
 		}
 		reg.Close()
 	}
+	// filterReferrers against the Lean compaction loop: every list over three artifact types up
+	// to length 5, each filtered for each type
+	sc.Case("filter-referrers")
+	sc.NonTrivial()
+	{
+		types := map[byte]string{'a': "application/vnd.a", 'b': "application/vnd.b", 'c': "application/vnd.A"}
+		var rec func(prefix []byte)
+		rec = func(prefix []byte) {
+			for _, w := range []byte("abc") {
+				var ds []ocispec.Descriptor
+				var items []string
+				for k, t := range prefix {
+					ds = append(ds, ocispec.Descriptor{MediaType: ocispec.MediaTypeImageManifest, ArtifactType: types[t], Annotations: map[string]string{"id": fmt.Sprint(k + 1)}})
+					items = append(items, fmt.Sprintf("%d%c", k+1, t))
+				}
+				var kept []string
+				for _, d := range remote.VerifFilterReferrers(ds, types[w]) {
+					kept = append(kept, d.Annotations["id"])
+				}
+				l, a := "-", "-"
+				if len(items) > 0 {
+					l = strings.Join(items, ",")
+				}
+				if len(kept) > 0 {
+					a = strings.Join(kept, ",")
+				}
+				sc.Op(a, "cm filter want=%c l=%s", w, l)
+				evals++
+			}
+			if len(prefix) == 5 {
+				return
+			}
+			for _, t := range []byte("abc") {
+				rec(append(append([]byte(nil), prefix...), t))
+			}
+		}
+		rec(nil)
+	}
 	// Link header forms
 	sc.Case("parse-link")
 	sc.NonTrivial()
